@@ -60,6 +60,13 @@ pub struct TypeSpec {
     /// handler registered for the error type
     #[serde(default)]
     pub specific_eh: Option<usize>,
+    /// constructor variant 0 lives in a module of its own (`ci<i>`) and is registered through
+    /// `bp.import(from![crate::m<k>::ci<i>])` instead of `bp.constructor(..)`. When the spec also asks for
+    /// overrides at registration (`attr_life` / `attr_clone` / `specific_eh`) the import is followed by an
+    /// explicit `bp.constructor(..)` with those overrides (a shape the generators never produce: see the
+    /// recorded finding of C02).
+    #[serde(default)]
+    pub imported: bool,
 }
 
 impl TypeSpec {
